@@ -1984,7 +1984,12 @@ def plan_c13(tier, seed, rng):
             n += 1
     return dict(
         scripts=scripts, validators=[API, STORE], tags={'C13', 'HELD', 'C02', 'C11', 'C03'}, timeout=25, asan=True,
-        rule='per forest kind (MT boolean/integer/real sets, EV+ sets, MT boolean/integer relations) x scheduling heuristic (all eight) x swap method '
+        mc=[('ReorderMC.tla', 'ReorderMC_F23.cfg', {})] + ([('ReorderMC.tla', 'ReorderMC_F32.cfg', {}), ('ReorderMC.tla', 'ReorderMC_Q23.cfg', {}),
+                                                        ('ReorderMC.tla', 'ReorderMC_F232.cfg', {}),
+                                                        ('ReorderMC.tla', 'ReorderMC_bug_scan.cfg', {'expect_violation': True}),
+                                                        ('ReorderMC.tla', 'ReorderMC_bug_unique.cfg', {'expect_violation': True})] if tier == 'thorough' else []),
+        rule='model (Reorder.tla): the adjacent-swap algorithm on a node table with variables of different sizes - every boolean function pair over <2,3> (thorough: <3,2>, quasi-reduced <2,3>, every function over <2,3,2> with up to 3 swaps) keeps Preserved (same function of the variables), Ordered, SizesOK, Unique and Reduced; the seeded slips scan_lsize and no_unique are refuted (thorough); implementation: '
+             'per forest kind (MT boolean/integer/real sets, EV+ sets, MT boolean/integer relations) x scheduling heuristic (all eight) x swap method '
              '(relations: variable swap and level swap): several edges sharing nodes plus a warm compute table, then a sequence of target permutations '
              '(all 24 / 6 for small K in thorough); after each reordering every held edge is evaluated at every point and compared with PermuteFn of the '
              'specification, a second forest over the same domain must be unchanged, the node snapshot must satisfy the reduction rule and exact counts, '
